@@ -1146,6 +1146,21 @@ impl ConstElem for ValueKind {
     }
   }
   fn from_le(bytes: &[u8]) -> Self {
+    ValueKind::from_le_nested(bytes, 0)
+  }
+  fn value_kind(&self) -> ValueKind { self.clone() }
+  fn align() -> u8 { 1 }
+}
+
+impl ValueKind {
+  // Element kinds nest (a set of matrices of sets ...); a hostile payload must not be able to
+  // recurse once per byte until the stack overflows.
+  const MAX_KIND_NESTING: usize = 32;
+
+  fn from_le_nested(bytes: &[u8], depth: usize) -> Self {
+    if depth > Self::MAX_KIND_NESTING {
+      panic!("value kind nested more than {} levels deep", Self::MAX_KIND_NESTING);
+    }
     let mut cursor = Cursor::new(bytes);
     let tag = cursor.read_u8().expect("read value kind tag");
 
@@ -1173,7 +1188,7 @@ impl ConstElem for ValueKind {
       20 => ValueKind::Any,
       #[cfg(feature = "matrix")]
       21 => {
-        let elem_vk = ValueKind::from_le(&bytes[cursor.position() as usize..]);
+        let elem_vk = ValueKind::from_le_nested(&bytes[cursor.position() as usize..], depth + 1);
         cursor.set_position(cursor.position() + 1); // advance past elem_vk tag
         let dim_count = cursor.read_u32::<LittleEndian>().expect("read matrix dim count") as usize;
         let mut dims = Vec::with_capacity(declared_count(dim_count, bytes.len()));
@@ -1197,7 +1212,7 @@ impl ConstElem for ValueKind {
           let mut buf = Vec::new();
           name.write_le(&mut buf);
           cursor.set_position(cursor.position() + buf.len() as u64);
-          let vk = ValueKind::from_le(&bytes[cursor.position() as usize..]);
+          let vk = ValueKind::from_le_nested(&bytes[cursor.position() as usize..], depth + 1);
           let mut buf = Vec::new();
           vk.write_le(&mut buf);
           cursor.set_position(cursor.position() + buf.len() as u64);
@@ -1208,7 +1223,7 @@ impl ConstElem for ValueKind {
       }
       #[cfg(feature = "set")]
       29 => {
-        let elem_vk = ValueKind::from_le(&bytes[cursor.position() as usize..]);
+        let elem_vk = ValueKind::from_le_nested(&bytes[cursor.position() as usize..], depth + 1);
         cursor.set_position(cursor.position() + 1);
         let size_flag = cursor.read_u8().expect("read set size flag");
         let opt_size = if size_flag != 0 {
@@ -1221,8 +1236,6 @@ impl ConstElem for ValueKind {
       x => unimplemented!("from_le not implemented for this ValueKind variant: {:?}", x),
     }
   }
-  fn value_kind(&self) -> ValueKind { self.clone() }
-  fn align() -> u8 { 1 }
 }
 
 // helper to read a length-prefixed string from cursor
